@@ -252,7 +252,11 @@ def drive(recipe):
                     m.properties["generator_symop"] = np.full(len(z), 16484)
                     m.properties["asym_mol_idx"] = k
                     m.properties["asymmetric_unit_atoms"] = np.arange(len(z)) + k * len(z)
-            dim = Dimer(ma, mb, transform_ab="calculate")
+            if recipe.get("crystal_props"):
+                # as Crystal.symmetry_unique_dimers builds them: with the lattice shift of the second molecule
+                dim = Dimer(ma, mb, transform_ab="calculate", frac_shift=np.array([1.0, 0.0, -1.0]))
+            else:
+                dim = Dimer(ma, mb, transform_ab="calculate")
             tr = dim.transform_ab
             if tr is None:
                 t["exc"] = "NoTransform"
